@@ -24,7 +24,7 @@ type ShapeOpts struct {
 
 // DefaultShape is the swarm default.
 var DefaultShape = ShapeOpts{MaxAlt: 2, MaxEmbed: 2, MaxAttach: 2, MaxContent: 400, CRLFOnly: true,
-	Encs: []string{"quoted-printable", "base64", "8bit"}, FileEncs: []string{"", "base64"}, Sources: []string{"writer", "readseeker", "fs", "reader"}}
+	Encs: []string{"quoted-printable", "base64", "8bit"}, FileEncs: []string{"", "base64"}, Sources: []string{"writer", "readseeker", "fs", "reader", "file", "tmpl"}}
 
 var words = []string{"alpha", "beta", "gamma", "delta", "Ünïcödé", "ζήτα", "=equals=", ".dot", "..dots", "From ", "--boundary", "line", "x", "a-very-long-word-without-any-blank-in-it-that-exceeds-the-usual-line-length-limit-of-76-characters-by-far"}
 
@@ -216,10 +216,10 @@ func (s *MsgSpec) canFail(i int) bool {
 	}
 	i -= len(s.Parts)
 	if i < len(s.Embeds) {
-		return s.Embeds[i].Source != "reader"
+		return s.Embeds[i].Source != "reader" && s.Embeds[i].Source != "file" && s.Embeds[i].Source != "tmpl"
 	}
 	i -= len(s.Embeds)
-	return s.Attach[i].Source != "reader"
+	return s.Attach[i].Source != "reader" && s.Attach[i].Source != "file" && s.Attach[i].Source != "tmpl"
 }
 
 // clone makes a deep copy of the spec (slices of parts/files).
